@@ -116,17 +116,25 @@ def canonAssigns : List ((Str × List Str) × Value) → List ((Str × List Str)
   | [] => []
   | (p, v) :: r => (p, canonV v) :: canonAssigns r
 
-/-- Two object statements say the same: same type, name, `ignore_on_error`, imports (in order), the same
-    set of assigned paths, and the assignments evaluate to the same attribute tree (the ORDER of
-    independent assignments and of dictionary entries, like all spacing, is the writer's business; when
-    the paths contradict each other, so that nothing can be evaluated, the lists must agree in order). -/
+/-- the assignments to ONE attribute (same first token) say the same: same set of paths, and they
+    evaluate to the same tree; when they contradict each other (nothing can be evaluated: `vars.a = ""`
+    and `vars.a.b = 1`) they must agree in order -/
+def groupSame (la lb : List ((Str × List Str) × Value)) : Bool :=
+  la.length == lb.length && pathsSubset la lb && pathsSubset lb la &&
+  (match evalAssigns (canonAssigns la) [], evalAssigns (canonAssigns lb) [] with
+   | some x, some y => Value.beqMembers (canonMs x) (canonMs y)
+   | none, none => assignsBeq (canonAssigns la) (canonAssigns lb)
+   | _, _ => false)
+
+/-- Two object statements say the same: same type, name, `ignore_on_error`, imports (in order), and for
+    every attribute (first token of the path) the same assignments in the sense of `groupSame`.  The
+    order of assignments to DIFFERENT attributes and of dictionary entries, like all spacing, is the
+    writer's business: the values are literals, the assignments are independent. -/
 def itemSame (a b : Item) : Bool :=
   a.ty == b.ty && a.name == b.name && a.ioe == b.ioe && a.imports == b.imports &&
-  a.assigns.length == b.assigns.length && pathsSubset a.assigns b.assigns && pathsSubset b.assigns a.assigns &&
-  (match evalAssigns a.assigns [], evalAssigns b.assigns [] with
-   | some x, some y => Value.beqMembers (canonMs x) (canonMs y)
-   | none, none => assignsBeq (canonAssigns a.assigns) (canonAssigns b.assigns)
-   | _, _ => false)
+  a.assigns.length == b.assigns.length &&
+  a.assigns.all (fun x => groupSame (a.assigns.filter (fun y => y.1.1 = x.1.1)) (b.assigns.filter (fun y => y.1.1 = x.1.1))) &&
+  b.assigns.all (fun x => a.assigns.any (fun y => y.1.1 = x.1.1))
 
 /-- "no name, key or value changed the structure or added statements": the generated text is exactly
     one object statement with exactly the supplied paths and values (numbers as six-digit literals). -/
